@@ -214,6 +214,74 @@ def check_mass(rep, proj, tier):
     rep.floor("mass-carrying asymptotic kernels inspected", n_k, 150)
 
 
+def check_local(rep, proj):
+    """The local (delta(1-z)) part of the light-quark initiated ("missing") heavy-quark correction is the virtual heavy-loop correction to the
+    Born vertex: it is proportional to the Born coefficient.  So, kind by kind: the massive NonSinglet kernel carries a local part at
+    order 2  <=>  the massless NonSinglet coefficient function of that kind has a Born term (order 0)  <=>  some level of the asymptotic
+    NonSinglet family carries a local part at order 2.  A local part on one side only cannot cancel in FFNS - FFN0 (a delta function is not
+    the limit of the regular parts), so the difference would not vanish at high virtuality.  Kinds without an asymptotic family (gL, g4)
+    are outside the property's quantifier: reported, never alarmed on."""
+    from .. import pcmodel as P
+    from .. import symeval as S
+
+    ev = S.Evaluator(proj, on_call=P.above_threshold_hook, lenient_ext=True)
+    sym = P.Sym()
+    mods = P.dispatch_modules(proj)
+    n = 0
+
+    def has_loc(c, k):
+        obj = P.instantiate(ev, c, sym)
+        r = P.fold_order(ev, obj, k)
+        if r.status in ("undecided", "raised"):
+            raise A.Undecided(f"{c.fq} order {k}: {r.reason}")
+        return r.status == "rsl" and r.rsl.attrs.get("loc") is not None, r.status
+
+    for (fam, kind, procc), m in sorted(mods.items()):
+        if fam != "heavy" or procc != "nc":
+            continue
+        hc = m.classes.get("NonSinglet")
+        if hc is None:
+            continue
+        construct = f"{hc.fq}.NNLO"
+        lm, am = mods.get(("light", kind, "nc")), mods.get(("asy", kind, "nc"))
+        try:
+            heavy_loc, hstat = has_loc(hc, 2)
+            if hstat != "rsl":
+                continue
+            born = None
+            if lm is not None and lm.classes.get("NonSinglet") is not None:
+                born = P.fold_order(ev, P.instantiate(ev, lm.classes["NonSinglet"], sym), 0).status == "rsl"
+            asy_loc = None
+            if am is not None:
+                levels = [am.classes.get("Asy" + "N" * res + "LL" + "NonSinglet") for res in range(4)]
+                levels = [c for c in levels if c is not None]
+                if levels:
+                    asy_loc = any(has_loc(c, 2)[0] for c in levels)
+        except (A.Undecided, S.Raised) as e:
+            rep.undecided("C08.local", hc.site, construct, str(e)[:200])
+            continue
+        if kind.lower() not in ("f2", "fl", "g1"):
+            # the property speaks of NC F2 / FL (g1 where the massive library allows)
+            rep.info.setdefault("outside_quantifier", []).append(
+                f"{construct}: kind {kind} is outside the property's quantifier (local part {'present' if heavy_loc else 'absent'} on the massive side, "
+                f"{'present' if asy_loc else 'absent'} on the asymptotic side, Born term {'present' if born else 'absent'})")
+            continue
+        if asy_loc is None:
+            rep.info.setdefault("outside_quantifier", []).append(
+                f"{construct}: no asymptotic NonSinglet family for kind {kind} (local part {'present' if heavy_loc else 'absent'}, Born term {'present' if born else 'absent'})")
+            continue
+        n += 1
+        problems = []
+        if heavy_loc != asy_loc:
+            problems.append(f"the massive kernel {'has' if heavy_loc else 'has no'} local part while the asymptotic family {'has one' if asy_loc else 'has none'}")
+        if born is not None and heavy_loc != born:
+            problems.append(f"the massive kernel {'has' if heavy_loc else 'has no'} local part while the massless {kind} non-singlet coefficient function "
+                            f"{'has' if born else 'has no'} Born term (the virtual correction is proportional to it)")
+        rep.check(not problems, "C08.local", hc.site, construct,
+                  f"local part {'present' if heavy_loc else 'absent'} on the massive side, the asymptotic side and in the Born coefficient alike", "; ".join(problems), key=kind)
+    rep.floor("kinds whose missing-term local part was compared with its asymptotic family", n, 2)
+
+
 def run(rep, proj, tier):
     rep.explanation = (
         "The asymptotic limit itself is numerical and NOT decided. Decided is a necessary structural clause on partially evaluated operators: for "
@@ -228,6 +296,7 @@ def run(rep, proj, tier):
     rep.trusted_base = ["CPython ast", "yadsa partial evaluator with opaque coupling weights w(pid, type[, mask])"]
     rep.assumptions = ["heavy coefficient functions folded above threshold", "F_L(LO, massive) is proportional to m^2/Q^2 (Kretzer-Schienbein; gluck-ccheavy)"]
     check_levels(rep, proj)
+    check_local(rep, proj)
     check_mass(rep, proj, tier)
     # both sides of the limit are integrals of these kernels: a massive or asymptotic kernel that changes from one evaluation to the
     # next (state kept in a captured container) makes the two sides incomparable whatever their first evaluation looks like
